@@ -18,9 +18,9 @@ def add(id, level, text, note, technique):
     CHECKS[id] = (level, text, note, technique)
 
 add("C01", "exploration",
-    "seeded test blocks of every executor type on a funded parent state are executed by 4 (quick) / 8 (thorough) sequential replica incarnations of the real node that differ in seeded map-iteration order (instrumented build), wall clock (epoch shift, per-call drift), cold boot from the parent's disk image vs warm node (seeded first-touch reads, executed-and-discarded block); state root, evicted list, executed list and every receipt (status, text, logs, gas, contract address) must be byte-identical; then proposer-casts / other-incarnation-adds through the exported chain API. Sampling, not proof.",
-    "trusted: map-order instrumentation (every range over a map / sync.Map in the anchored packages is rewritten to a seeded permutation - any order is a legal Go execution), simulated clock hook, in-process replica incarnations with process-local caches reset; asynchronous casting goroutine (Proposal020) is not scheduled by the simulator, plans use the synchronous casting configuration",
-    "deterministic simulation: replica twin runs under seeded map order / clock / cache warmness + cast-verify protocol path")
+    "seeded test blocks of every executor type (native and wrapped-Ethereum contract transactions, multi-target transfers, miner transactions incl. add-stake to genesis proposers, proposer-heavy blocks; optionally skipping >300 heights so that setup miners - incl. 3-5 proposers sharing one reward account - are counted in the reward step) on a funded parent state are executed by 4 (quick) / 8 (thorough) replica incarnations of the real node that differ in seeded map-iteration order (instrumented build), wall clock (epoch shift, per-call drift), cold boot from the parent's disk image vs warm node (seeded first-touch reads, executed-and-discarded block) vs a fresh incarnation that first executed a COMPETING block of the same height; state root, evicted list, executed list and every receipt (status, text, logs, gas, contract address) must be byte-identical; in 20% of the plans 2-3 executions of the block plus the competing block run CONCURRENTLY in one process under the seeded scheduler and must each give the same outcome; then proposer-casts (asynchronous casting goroutine scheduled by the simulator in the Proposal020 configuration) / other-incarnation-adds through the exported chain API. Second stage: 24 (quick) / 300 (thorough) concurrent-execution plans in a -race build whose task hand-off is invisible to the race detector; a data race between two accesses inside the execution packages is a violation. Sampling, not proof.",
+    "trusted: map-order instrumentation (every range over a map / sync.Map in the anchored packages is rewritten to a seeded permutation - any order is a legal Go execution), simulated clock hook, in-process replica incarnations with process-local caches reset; yield points exist only in service/core/middleware (races inside other packages are not interleaved, the race stage reports their missing happens-before edge instead); the Go race detector's bounded access history",
+    "deterministic simulation: replica twin runs under seeded map order / clock / cache warmness / process history + concurrent executions under a seeded scheduler + race detector over simulator-chosen schedules + cast-verify protocol path")
 
 add("C02", "exploration",
     "seeded search over operation histories (update/delete/get/hash/commit/warm+cold reopen/cache-limit/iterate, 1-2 tries on one node database) with one-shot disk read faults on the simulated disk; after every operation the real trie is compared with an independent Yellow-Paper MPT root and a map model. Sampling, not proof: a clean batch is evidence for the histories explored.",
@@ -28,7 +28,7 @@ add("C02", "exploration",
     "deterministic simulation: seeded histories + disk read faults vs reference MPT model")
 
 add("C03", "fault_enumeration",
-    "for seeded histories of blocks (half of them >100 KiB so the commit spans several batch writes) committed as blockChain.saveStates does, EVERY prefix of every commit's physical write sequence is materialised as a crash image and opened cold: all earlier roots and - when its top node is present, and always after an acknowledged commit - the new root must resolve completely (account trie, storage tries, code) and read back the recorded values; plus a failing-write variant. Exhaustive over write prefixes per history; histories are sampled.",
+    "for seeded histories of blocks (half of them >100 KiB so the commit spans several batch writes) committed as blockChain.saveStates does, EVERY prefix of every commit's physical write sequence is materialised as a crash image and opened cold: all earlier roots and - when its top node is present, and always after an acknowledged commit - the new root must resolve completely (account trie, storage tries, code) and read back the recorded values; plus a failing-write variant (Commit must report the error, older roots stay intact, and a commit of the same root repeated by the surviving process must not report success unless the root is on disk). Exhaustive over write prefixes per history; histories are sampled.",
     "crash model = process death (completed writes survive, a batch is atomic, nothing torn): the code never syncs and the property speaks of process death; trusted: simdisk.KV",
     "deterministic simulation: crash-point enumeration over the physical write log + cold reopen + complete walk")
 
@@ -38,7 +38,7 @@ add("C04", "exploration",
     "deterministic simulation: seeded histories with nested reverts + reopen faults; observation and twin-run oracles")
 
 add("C05", "fault_enumeration",
-    "seeded block trees generated with the node's own cast/verify/assemble API are delivered to a fresh real node in seeded orders (duplicates, orphans first, re-deliveries, restarts); the invariant of the statement is checked on the live node after every delivery and - exhaustively per plan - on a new incarnation booted from the disk image after EVERY individual store write inside every delivery (crash + restart), followed by a progress check (a valid child of the restarted head is accepted). Reference fork-choice comparator for weight monotonicity.",
+    "seeded block trees generated with the node's own cast/verify/assemble API are delivered to a fresh real node in seeded orders (duplicates, orphans first, re-deliveries, restarts); the invariant of the statement is checked on the live node after every delivery and - exhaustively per plan - on a new incarnation booted from the disk image after EVERY individual store write inside every delivery (crash + restart), followed by a progress check (a valid child of the restarted head is accepted). Reference fork-choice comparator for weight monotonicity; half of the reorg scenarios are equal-TotalQN weight contests decided at the fork point, with height gaps on either branch.",
     "trusted: simulated storage under real goleveldb (completed writes survive, nothing torn), stub ConsensusHelper (signatures/VRF accepted), in-process restart through in-package drivers; one real node, peers are the delivery script",
     "deterministic simulation: block-tree delivery schedules + crash-after-every-store-write enumeration + restart")
 
@@ -48,17 +48,17 @@ add("C06", "exploration",
     "deterministic simulation: value-movement histories with gas-starvation faults + conservation monitor")
 
 add("C12", "exploration",
-    "seeded call trees (2-14 frames, CALL/CALLCODE/DELEGATECALL/STATICCALL, effects SSTORE / LOG / value transfer / CREATE, endings RETURN / REVERT / INVALID / infinite loop / stack fault, limited gas shares, starved root gas) are deployed as contracts and executed by the real block executor; every successful frame returns the bitmap of frames of its subtree whose effects must persist, so the root return data carries the actual outcome of every frame; storage of every frame slot, ordered receipt logs, balances, nonces and created accounts must equal exactly the effects of the reported frames, and nothing from a STATICCALL subtree may persist or report success after writing. Cross-transaction plans run 2-4 transactions on one state object and check per-receipt logs, equal gas (no inherited warm access list) and empty transient storage at the start of each. Sampling, not proof.",
-    "trusted: the harness assembler and the bitmap protocol of the generated contracts (a frame can only report success by executing its RETURN), per-frame slots/topics make every observed value attributable; SELFDESTRUCT not generated",
+    "seeded call trees (2-14 frames, CALL/CALLCODE/DELEGATECALL/STATICCALL, effects SSTORE / LOG / value transfer / CREATE, endings RETURN / REVERT / INVALID / infinite loop / stack fault, limited gas shares, starved root gas) are deployed as contracts and executed by the real block executor; every successful frame returns the bitmap of frames of its subtree whose effects must persist, so the root return data carries the actual outcome of every frame; storage of every frame slot, ordered receipt logs, balances, nonces and created accounts must equal exactly the effects of the reported frames, and nothing from a STATICCALL subtree may persist or report success after writing. Cross-transaction plans run 2-4 transactions on one state object and check per-receipt logs, equal gas (no inherited warm access list) and empty transient storage at the start of each; half of them only warm ADDRESSES (account-access opcodes, inner CREATE, deployment transaction), compare every probe's gas with the same probe alone in a block, and inspect the access list of the executor's state object right after Prepare for a next transaction (EIP-2929 gas is switched off in this VM, so the list is otherwise unobservable). Sampling, not proof.",
+    "trusted: the harness assembler and the bitmap protocol of the generated contracts (a frame can only report success by executing its RETURN), per-frame slots/topics make every observed value attributable; SELFDESTRUCT only in leaf frames",
     "deterministic simulation: generated call trees with gas-starvation faults; outcome-bitmap + exact post-state oracle; same-state-object transaction sequences")
 
 add("C13", "exploration",
-    "n in [3,10] member objects run the node's own DKG code with the n*n share pieces delivered over a simulated transport in seeded order with duplicates; every member signs 1-3 messages and 2-5 collectors (real GroupSignGenerator) receive the shares in seeded arrival orders with drops, duplicates and late arrivals, under a seeded internal k-subset choice (randomness hook) and seeded share-map iteration order (instrumented build); for n<=7 every k-subset is additionally recovered directly. Oracle: same group public key on every member = sum of dealers' public keys; shares verify under public shares; threshold = ceil(51% n); every recovery equals H(m)^s for the independently summed secret and verifies under the group key; nothing below the threshold. Sampling (plus per-plan exhaustive subsets), not proof.",
+    "n in [3,10] member objects run the node's own DKG code with the n*n share pieces delivered over a simulated transport in seeded order with duplicates; every member signs 1-3 messages and 2-5 collectors (real GroupSignGenerator) receive the shares in seeded arrival orders with drops, duplicates and late arrivals, under a seeded internal k-subset choice (randomness hook) and seeded share-map iteration order (instrumented build); for n<=7 every k-subset is additionally recovered directly; in 30% of the plans one more collector is fed by 2-4 concurrently scheduled handler tasks that also poll it (every signature handed out must be the reference), and a second stage runs 40 (quick) / 400 (thorough) such plans in a -race build whose task hand-off is invisible to the race detector (a data race inside consensus/model or consensus/groupsig is a violation). Oracle: same group public key on every member = sum of dealers' public keys; shares verify under public shares; threshold = ceil(51% n); every recovery equals H(m)^s for the independently summed secret and verifies under the group key; nothing below the threshold. Sampling (plus per-plan exhaustive subsets), not proof.",
     "trusted: the repository's Sign/VerifySig (soundness is C14, not applicable to this technique) for the reference signature on the independently summed secret; seeded randomness hook in base.NewRand; map-order instrumentation",
-    "deterministic simulation: DKG + share collection under reorder/duplicate/drop, seeded subset choice and map order vs algebraic reference")
+    "deterministic simulation: DKG + share collection under reorder/duplicate/drop, seeded subset choice and map order vs algebraic reference; concurrent handlers under a seeded scheduler + race detector over simulator-chosen schedules")
 
 add("C15", "exploration",
-    "one verifier runs the real SignParty (round1 -> round2, stored-message replay) on a booted node for a group keyed by the node's DKG code and a really cast block; the other members are scripted, honest or Byzantine (valid signature over another hash filed under this block, another member's share, duplicates, non-member id, garbage points, bad beacon / bad block share), their protobuf messages decoded by the real decoder and delivered in seeded orders, also before the proposal is accepted, as scheduler tasks. After every delivery the two share sets may only hold each member's valid share for this block hash / previous beacon; once k honest members are in and at most n-k members are Byzantine the party must have finalised within that delivery with a valid block signature and beacon (bounded liveness). Sampling, not proof.",
+    "one verifier runs the real SignParty (round1 -> round2, stored-message replay) on a booted node for a group keyed by the node's DKG code and a really cast block; the other members are scripted, honest or Byzantine (valid signature over another hash filed under this block, another member's share, duplicates, non-member id, garbage points, bad beacon / bad block share, and - after the same verifier process has signed an earlier block of the group - that member's valid share of the EARLIER block replayed inside a message naming this block), their protobuf messages decoded by the real decoder and delivered in seeded orders, also before the proposal is accepted, as scheduler tasks. After every delivery the two share sets may only hold each member's valid share for this block hash / previous beacon; once k honest members are in and at most n-k members are Byzantine the party must have finalised within that delivery with a valid block signature and beacon (bounded liveness). Sampling, not proof.",
     "trusted: in-package driver positions the party after round0's acceptance checks (not part of C15); recording fake consensus network; stub ConsensusHelper on the chain that receives the finalised block",
     "deterministic simulation: real signing round with Byzantine members and seeded arrival orders; share-set invariant + bounded-liveness oracle")
 
@@ -68,12 +68,12 @@ add("C17", "exploration",
     "deterministic simulation: op histories vs reference pool; seeded interleavings at inserted yield points; porcupine on recorded histories; race detector over simulator-chosen schedules")
 
 add("C07", "exploration",
-    "a booted real node with its ingress handlers receives honestly signed native and EIP-155 wrapped transactions, and the same transactions tampered by exactly one mutation (substitution of each authenticated field with or without recomputed hash, signature r/s/v bit flips, spliced signature, single bit flips of the marshalled bytes, outer-field substitutions and inner RLP re-encodings under the original signature) through the peer-to-peer receive path, the client write topic and both branches of the queued write handler, handler goroutines running as tasks of the seeded scheduler. Exact oracle at quiescence: the pending pool equals the honestly signed transactions that were delivered intact. Sampling, not proof.",
+    "a booted real node with its ingress handlers receives honestly signed native and EIP-155 wrapped transactions, and the same transactions tampered by exactly one mutation (substitution of each authenticated field with or without recomputed hash, signature r/s/v bit flips, spliced signature, single bit flips of the marshalled bytes, outer-field substitutions, inner RLP re-encodings under the original signature, and forged wrapped payloads with unrecoverable or other-chain signatures declaring the zero address as sender) through the peer-to-peer receive path, the client write topic and both branches of the queued write handler, handler goroutines running as tasks of the seeded scheduler. Exact oracle at quiescence: the pending pool equals the honestly signed transactions that were delivered intact. Sampling, not proof.",
     "trusted: harness key material and the mutation generator (never produces the ECDSA twin); unauthenticated fields are not mutated; gate/websocket layer stubbed (bytes injected at handleMessage)",
     "deterministic simulation: Byzantine transport (tamper fault) on every ingress path + exact admission oracle")
 
 add("C09", "exploration",
-    "every block, header, transaction and group the simulated node produces or parses crosses the real codecs (marshal -> parse -> re-hash and re-marshal; store -> reload; relay to another incarnation), edge-valued in-memory objects must reach a fixed point after one pass, and a corrupting transport (bit flips, truncation, extension, removal of one optional protobuf field, random bytes) feeds every exported parser and the node's receive path (NewBlockMsg, ReqTransactionMsg, TransactionGotMsg handlers as scheduler tasks); any panic is a violation and an intact block must still be processed afterwards. Sampling, not proof.",
+    "every block, header, transaction and group the simulated node produces or parses crosses the real codecs (marshal -> parse -> re-hash and re-marshal; store -> reload; relay to another incarnation), edge-valued in-memory objects must reach a fixed point after one pass, the genesis header, fully populated boundary headers (prove value 0/1/255/256) and seeded transactions with unusual field texts (upper-case / EIP-55 / 0X-prefixed / non-address sources, binary and unicode data, extreme integers) must keep hash and fields, and a corrupting transport (bit flips, truncation, extension, removal of one optional protobuf field, random bytes) feeds every exported parser and the node's receive path (NewBlockMsg, ReqTransactionMsg, TransactionGotMsg handlers as scheduler tasks); any panic is a violation and an intact block must still be processed afterwards. Sampling, not proof.",
     "trusted: golang/protobuf, the stub ConsensusHelper performs the structural header checks of the real one (hash, parent hash) but accepts group signatures; consensus decoders run under the handler's recover() and the sync processor is not started: neither is driven",
     "deterministic simulation: codec hops on simulated transport/disk + transport corruption faults; panic-free and hash-stability oracles")
 
